@@ -3,7 +3,7 @@ from __future__ import annotations
 
 import ast
 
-from ..core import INCONCLUSIVE, OK, VIOLATION, Ctx, is_self_attr, local_defs
+from ..core import INCONCLUSIVE, OK, VIOLATION, Ctx, is_self_attr, local_defs, canon
 from ..model import AnalysisError, Inconclusive, body_walk, norm
 from . import c16
 from .wrappers import counter_attr, evaluate_summaries
@@ -215,7 +215,16 @@ def r03_3(ctx: Ctx):
                         unknown.append((n, f"cannot resolve the optimiser run behind `{norm(n)}`"))
                         continue
                     if incr is not None and isinstance(incr, ast.BinOp):
-                        bad.append((n, f"accumulator increased by `{norm(incr)}`, more than the optimiser's own nfev"))
+                        # exact by construction: the difference of the deme's own counting wrapper before / after the run
+                        if isinstance(incr.op, ast.Sub) and norm(incr.left) == f"{fsn}._problem.n_evaluations":
+                            snap = incr.right
+                            if isinstance(snap, ast.Name) and len(defs.get(snap.id, [])) == 1 and norm(defs[snap.id][0]) == f"{fsn}._problem.n_evaluations":
+                                n_feed += 1
+                                continue
+                        if any(isinstance(x, ast.Attribute) and x.attr == "nfev" for x in ast.walk(incr)):
+                            bad.append((n, f"accumulator increased by `{norm(incr)}`, not by the optimiser's own nfev"))
+                        else:
+                            unknown.append((n, f"accumulator increased by `{norm(incr)}`"))
                         continue
                     unknown.append((n, f"accumulator changed by `{norm(n)}` (form not understood)"))
         # every evaluation the class makes must be covered by the accumulator: no evaluating call outside the counted optimiser run
@@ -565,6 +574,127 @@ def r03_8(ctx: Ctx):
     return who_may_evaluate(ctx, "R03.8")
 
 
+def r03_9(ctx: Ctx):
+    """R03.9 a level configuration is read-only after construction: nothing stores into a config object or into an un-copied view of its attribute dictionary (`vars(cfg)` / `cfg.__dict__`) — otherwise the next deme built from the same config wraps the previous deme's counting wrapper and evaluations are counted twice."""
+    obs = []
+    n = 0
+    cfg_cls = ctx.prog.cls("BaseLevelConfig")
+    cfg_names = {cfg_cls.name} | {c.name for c in ctx.prog.subclasses(cfg_cls)}
+    for f in ctx.prog.all_functions():
+        if f.name == "<module>" or (f.cls is not None and f.cls.name in cfg_names) or f.module.name.startswith("pyhms.config"):
+            continue
+        defs = local_defs(f)
+        # names that alias a config's live attribute dictionary
+        views = {}
+        for nm, ds in defs.items():
+            for d in ds:
+                if isinstance(d, ast.Call) and norm(d.func) == "vars" and len(d.args) == 1 and _is_config_expr(ctx, f, d.args[0], defs):
+                    views[nm] = d
+                if isinstance(d, ast.Attribute) and d.attr == "__dict__" and _is_config_expr(ctx, f, d.value, defs):
+                    views[nm] = d
+        for st in body_walk(f.node):
+            if not isinstance(st, (ast.Assign, ast.AugAssign)):
+                continue
+            for t in (st.targets if isinstance(st, ast.Assign) else [st.target]):
+                n += 1
+                if isinstance(t, ast.Subscript) and isinstance(t.value, ast.Name) and t.value.id in views:
+                    obs.append(ctx.ob("R03.9", f, st, status=VIOLATION, detail=f"{f.short}: `{norm(st)[:70]}` writes through `{t.value.id}`, which is the live attribute dictionary of the level configuration (`{norm(views[t.value.id])}`, not a copy): the shared config is modified, and a deme built from it later wraps this deme's counting wrapper", construct=f"{f.short}:{t.value.id}"))
+                elif isinstance(t, ast.Subscript) and isinstance(t.value, (ast.Attribute, ast.Call)) and ((isinstance(t.value, ast.Attribute) and t.value.attr == "__dict__" and _is_config_expr(ctx, f, t.value.value, defs)) or (isinstance(t.value, ast.Call) and norm(t.value.func) == "vars" and t.value.args and _is_config_expr(ctx, f, t.value.args[0], defs))):
+                    obs.append(ctx.ob("R03.9", f, st, status=VIOLATION, detail=f"{f.short}: `{norm(st)[:70]}` stores into the level configuration's attribute dictionary", construct=f"{f.short}:config-dict"))
+                elif isinstance(t, ast.Attribute) and t.attr in ("problem", "bounds", "lsc") and _is_config_expr(ctx, f, t.value, defs):
+                    obs.append(ctx.ob("R03.9", f, st, status=VIOLATION, detail=f"{f.short}: `{norm(st)[:70]}` overwrites a field of the shared level configuration", construct=f"{f.short}:config-field"))
+    if n < 200:
+        raise AnalysisError(f"only {n} assignment targets scanned")
+    if not obs:
+        obs.append(ctx.ob("R03.9", None, None, subject="pyhms", loc="-", detail=f"{n} assignment targets outside the config classes: none writes into a level configuration", construct="config-read-only"))
+    return obs
+
+
+def _is_config_expr(ctx, f, e, defs) -> bool:
+    t = canon(e, defs)
+    if t.endswith(".config") or t in ("config", "level_config") or t.endswith("._config") or t.endswith(".config.levels[target_level]"):
+        return True
+    ty = ctx.res.type_of(e, f)
+    for x in ([] if ty is None else ([ty] if ty[0] != "union" else list(ty[1]))):
+        if x[0] == "inst" and x[1].split(".")[-1].endswith("LevelConfig"):
+            return True
+    return False
+
+
+def r03_10(ctx: Ctx):
+    """R03.10 a deme whose evaluation count is filled in only after its external optimiser has returned (the tabled scipy nfev accumulator) never lets a stop condition be consulted from inside that run: at such a consultation the evaluations made so far are not in any counter yet."""
+    from .common import objective_function, stop_call_kind
+
+    obs = []
+    n = 0
+    base = ctx.prog.cls("AbstractDeme")
+    for ci in ctx.prog.subclasses(base):
+        if "n_evaluations" not in ci.methods:
+            continue
+        for f in ctx.prog.functions_in(ci):
+            if f.parent is not None:
+                continue
+            for cs in ctx.res.callsites(f):
+                if not (cs.external and cs.external.startswith("scipy.optimize.") and isinstance(cs.node, ast.Call)):
+                    continue
+                n += 1
+                from ..core import effective_keywords
+
+                handed = list(cs.node.args[:1]) + [v for k, v in effective_keywords(cs.node, local_defs(f)).items() if k in ("fun", "callback", "jac", "hess")]
+                bad = None
+                for a in handed:
+                    kind, node, owner, rets = objective_function(ctx, f, a)
+                    if kind in ("def", "lambda"):
+                        g = owner if owner is not None else f
+                        for c in ast.walk(node):
+                            if isinstance(c, ast.Call) and (stop_call_kind(ctx, g, c) in ("gsc", "lsc") or norm(c.func).endswith(("._gsc", "._lsc"))):
+                                bad = (a, c)
+                if bad:
+                    obs.append(ctx.ob("R03.10", f, bad[1], status=VIOLATION, detail=f"{ci.name}: `{norm(bad[1])}` consults a stop condition from inside the optimiser run (`{norm(bad[0])}` is handed to {cs.external}), but {ci.name}.n_evaluations only receives the run's evaluations after the optimiser has returned: the totals seen by the stop condition are lower than the number of objective calls made", construct=f"{ci.name}:consult-in-run"))
+                else:
+                    obs.append(ctx.ob("R03.10", f, cs.node, detail=f"{ci.name}: no stop condition is consulted from the functions handed to {cs.external}", construct=f"{ci.name}:consult-in-run"))
+    if n == 0:
+        obs.append(ctx.ob("R03.10", None, None, subject="pyhms.demes", loc="-", status=INCONCLUSIVE, detail="no deme with its own evaluation accumulator runs an external optimiser any more", construct="none"))
+    return obs
+
+
+def r03_11(ctx: Ctx):
+    """R03.11 the individuals a population deme evaluates and breeds from are its own: a population handed to evaluate_population / the engine never contains another deme's Individual object (the sprout seed itself), whose `problem` is the parent's counting wrapper — Population.from_individuals takes the problem of the first individual, so the child's evaluations would be counted by the parent."""
+    obs = []
+    n = 0
+    for ci in ctx.concrete_demes():
+        init = ci.methods.get("__init__")
+        if init is None:
+            continue
+        defs = local_defs(init)
+        evald = [c.args[0].id for c in body_walk(init.node) if isinstance(c, ast.Call) and norm(c.func).endswith("evaluate_population") and c.args and isinstance(c.args[0], ast.Name)]
+        if not evald:
+            continue
+        n += 1
+        bad = None
+
+        def is_seed_obj(e):
+            t = canon(e, defs)
+            return t.endswith(("sprout_seed", "_sprout_seed")) and not t.endswith(".genome")
+
+        for st in body_walk(init.node):
+            # list literals / concatenations assigned to an evaluated population
+            if isinstance(st, ast.Assign) and len(st.targets) == 1 and isinstance(st.targets[0], ast.Name) and st.targets[0].id in evald:
+                for x in ast.walk(st.value):
+                    if isinstance(x, ast.List) and any(is_seed_obj(el) for el in x.elts):
+                        bad = st
+            if isinstance(st, ast.Call) and isinstance(st.func, ast.Attribute) and st.func.attr in ("append", "insert", "extend") and isinstance(st.func.value, ast.Name) and st.func.value.id in evald:
+                if any(is_seed_obj(a) or (isinstance(a, ast.List) and any(is_seed_obj(el) for el in a.elts)) for a in st.args):
+                    bad = st
+        if bad is not None:
+            obs.append(ctx.ob("R03.11", init, bad, status=VIOLATION, detail=f"{ci.name}: `{norm(bad)[:80]}` puts the parent's sprout-seed Individual itself into the population this deme evaluates and breeds from: it carries the parent's counting wrapper, so evaluations of this deme are added to the parent's counter (and a hibernating parent appears to evaluate)", construct=f"{ci.name}:foreign-individual"))
+        else:
+            obs.append(ctx.ob("R03.11", init, init.node, detail=f"{ci.name}: the starting population consists of individuals created on the deme's own problem", construct=f"{ci.name}:foreign-individual"))
+    if n < 3:
+        raise AnalysisError(f"only {n} deme constructors evaluating a starting population found")
+    return obs
+
+
 RULES = [
     ("R03.1", r03_1, 8),
     ("R03.2", r03_2, 16),
@@ -574,4 +704,7 @@ RULES = [
     ("R03.6", r03_6, 3),
     ("R03.7", r03_7, 1),
     ("R03.8", r03_8, 1),
+    ("R03.9", r03_9, 1),
+    ("R03.10", r03_10, 1),
+    ("R03.11", r03_11, 3),
 ]
